@@ -241,9 +241,23 @@ def strip_cfg_features(body, log_rules):
     return body
 
 
+def rev_range_to_while(body, log_rules):
+    """R-rev: `for X in (A..=B).rev() {` -> descending `while` (Verus has no spec for Rev<RangeInclusive>):
+    `let verif_lo_X: usize = A; let mut verif_next_X: usize = (B) + 1; while verif_next_X > verif_lo_X { verif_next_X -= 1; let X = verif_next_X; ..`
+    same values in the same (descending) order; A and B are evaluated once, as in the original"""
+    pat = re.compile(r"for\s+(\w+)\s+in\s+\(([^()]*(?:\([^()]*\)[^()]*)*)\.\.=([^()]*(?:\([^()]*\)[^()]*)*)\)\.rev\(\)\s*\{")
+    def sub(m):
+        x, a, b = m.group(1), m.group(2).strip(), m.group(3).strip()
+        log_rules.add("R-rev `for x in (a..=b).rev()` -> equivalent descending `while` (Verus has no spec for Rev<RangeInclusive>)")
+        return ("let verif_lo_%s: usize = %s; let mut verif_next_%s: usize = (%s) + 1;\n        while verif_next_%s > verif_lo_%s { verif_next_%s -= 1; let %s = verif_next_%s;"
+                % (x, a, x, b, x, x, x, x, x))
+    return pat.sub(sub, body)
+
+
 def apply_rules(body, profile, log_rules):
     ctr = [0]
     body = strip_cfg_debug(body, profile, log_rules)
+    body = rev_range_to_while(body, log_rules)
     body = strip_cfg_features(body, log_rules)
     body = eta_expand_constructors(body, log_rules)
     body = enumerate_to_index(body, log_rules)
